@@ -102,6 +102,66 @@ let show_out = function
 
 let rec nat_of_int i = if i <= 0 then O else S (nat_of_int (i - 1))
 
+(* ----- the same case against DavServer.serve (ConcServe.v): trees of Fs.v, requests of the client operations ----- *)
+let rec fsnode_of = function
+  | L [A "f"; c; _] -> File0 (str c, N0)
+  | L (A "d" :: kids) -> Dir0 (List.map (function L [k; v] -> (str k, fsnode_of v) | _ -> raise (Parse_error "kid")) kids)
+  | _ -> raise (Parse_error "node")
+let ofsnode_of = function A "-" -> None | x -> Some (fsnode_of x)
+
+let cop_of = function
+  | L [A "get"; q] -> CGet (path_of q)
+  | L [A "list"; q] -> CList (path_of q)
+  | L [A "stat"; q] -> CStat (path_of q)
+  | L [A "put"; q; c] -> CPut (path_of q, str c)
+  | L [A "mkcol"; q] -> CMkcol (path_of q)
+  | L [A "del"; q] -> CDelete (path_of q)
+  | L [A "copy"; q; q'; deep; ow] -> CCopy (path_of q, path_of q', bool_ deep, bool_ ow)
+  | L [A "move"; q; q'; ow] -> CMove (path_of q, path_of q', bool_ ow)
+  | _ -> raise (Parse_error "op")
+
+let cop_path = function
+  | CGet q | CList q | CStat q | CPut (q, _) | CMkcol q | CDelete q | CCopy (q, _, _, _) | CMove (q, _, _) -> q
+
+(* the harness reports member NAMES and sizes as numbers; the model's answers carry
+   hrefs and the getcontentlength text: rebuild those from the case's own input *)
+let answer_of_obs (coll : char list) (op : cop) = function
+  | L [A "st"; c] -> AnsStatus (nn c)
+  | L [A "data"; c; s] -> AnsData (nn c, str s)
+  | L [A "names"; c; L l] ->
+    let base = coll :: cop_path op in
+    AnsNames (nn c, List.map (fun x -> chars_of_string ("/" ^ String.concat "/" (List.map string_of_chars (base @ [str x])))) l)
+  | L [A "stat"; d; sz] -> if bool_ d then AnsStat (true, []) else AnsStat (false, chars_of_string (string_of_int (int_ sz)))
+  | A "-" -> AnsStatus N0
+  | _ -> raise (Parse_error "outcome")
+
+let show_answer = function
+  | AnsStatus c -> string_of_int (int_of_n c)
+  | AnsData (c, s) -> Printf.sprintf "%d:%s" (int_of_n c) (show_chars s)
+  | AnsNames (c, l) -> Printf.sprintf "%d[%s]" (int_of_n c) (String.concat "," (List.map show_chars l))
+  | AnsStat (d, s) -> Printf.sprintf "stat(%b,%s)" d (show_chars s)
+
+let serve_side clients obs_cls =
+  let cls = List.map (function
+      | L [A "client"; nm; tree; L ops] -> (str nm, fsnode_of tree, List.map cop_of ops)
+      | _ -> raise (Parse_error "client")) clients in
+  let sorted = List.sort (fun (a, _, _) (b, _, _) -> compare (string_of_chars a) (string_of_chars b)) cls in
+  let s0 = Some (Dir0 (List.map (fun (nm, t, _) -> (nm, t)) sorted)) in
+  let scs = List.map (fun (nm, _, ops) -> { sc_coll = [nm]; sc_ops = ops }) cls in
+  let sobs = List.map2 (fun (nm, _, ops) o -> match o with
+      | L [A "cl"; L co; ct; L ao; at] ->
+        let conv l = try List.map2 (answer_of_obs nm) ops l with Invalid_argument _ -> [] in
+        { so_conc = conv co; so_conc_tree = ofsnode_of ct; so_alone = conv ao; so_alone_tree = ofsnode_of at }
+      | _ -> raise (Parse_error "client obs")) cls obs_cls in
+  let ok = serve_agrees [] s0 scs sobs in
+  let detail =
+    if ok then "" else
+      Printf.sprintf "serve model (workload_ok=%b): %s" (workload_ok [] s0 scs)
+        (String.concat " | " (List.map (fun (nm, _, ops) ->
+             let (_, a) = run_ops [] [nm] s0 ops in
+             Printf.sprintf "%s=[%s]" (show_chars nm) (String.concat " " (List.map show_answer a))) cls)) in
+  (ok, detail)
+
 let conc transport clients obs =
   let cs = List.map (function
       | L [A "client"; nm; tree; L ops] -> { cl_name = str nm; cl_tree = node_of tree; cl_ops = List.map op_of ops }
@@ -129,9 +189,16 @@ let conc transport clients obs =
   if not (conc_wf cs) then
     verdict ~agree:false ~spec:false ~kf:"-" ~detail:"workload not well-formed (harness generator error)"
   else begin
-    let agree = conc_agrees cs o and spec = conc_spec_ok o in
+    let (serve_ok, serve_detail) =
+      match obs with
+      | L (A "cobs" :: _ :: _ :: cls) when List.length cls = List.length clients -> serve_side clients cls
+      | _ -> (false, "no per-client observation") in
+    let sem_ok = conc_agrees cs o in
+    if not sem_ok then bump "conc_sem_model_disagrees";
+    if not serve_ok then bump "conc_serve_model_disagrees";
+    let agree = sem_ok && serve_ok and spec = conc_spec_ok o in
     let detail =
-      if agree then "" else begin
+      if agree then "" else serve_detail ^ " ;; " ^ begin
         let (_, outs) = expected cs in
         let per i = List.filter_map (fun (j, x) -> if j = nat_of_int i then Some (show_out x) else None) outs in
         String.concat " | " (List.mapi (fun i _ -> Printf.sprintf "client%d model=[%s]" i (String.concat " " (per i))) cs)
